@@ -13,7 +13,7 @@ SIZES6 = [0, 8, 24, 64, 65, 129]
 # poisoning policy: every carved slot costs one entry of the harness's poison log, so the 8- and 16-byte classes (51 / 25 slots per slab) are left to
 # policies 1 and 2; the poison clauses are checked on the 32- and 64-byte classes and on large frames
 SIZES_P3 = [24, 32, 33, 64, 65, 129]
-def scen(pol, ops, hs, sel0, sizes, faults=0, timeout=1500, mem=6, optional=False, sel1=None, prefill=0, presize=64, lockset=False):
+def scen(pol, ops, hs, sel0, sizes, faults=0, timeout=1500, mem=6, optional=False, sel1=None, prefill=0, presize=64, lockset=False, preempt=None):
     K = len(ops)
     name = 'p%d.%s.s%d%s%s' % (pol, '-'.join('%s%s' % (OPN[o], '' if o == 0 else h) for o, h in zip(ops, hs)), sizes[sel0], '' if sel1 is None else '.s%d' % sizes[sel1], '.fault' if faults else '')
     defs = {'K': K, 'POLICY': pol, 'UNIT_H': '"c01_slab_p%d.h"' % pol, 'NREG': 22, 'IR2C_USE_REGIONS': 1, 'IR2C_STACK_BASE': '0x400ULL',
@@ -22,18 +22,22 @@ def scen(pol, ops, hs, sel0, sizes, faults=0, timeout=1500, mem=6, optional=Fals
     if pol == 3: defs['IR2C_ACCESS_HOOK'] = 1
     if faults: defs['FAULTS'] = faults
     if sel1 is not None: defs['SEL1'] = sel1
+    if preempt is not None:
+        defs['PREEMPT'] = 1; defs['PRE_OP'] = preempt[0]; defs['PRE_H'] = preempt[1]; defs['PRE_POINTS'] = 8
+        name = 'preempt-by-%s%s.' % (OPN[preempt[0]], '' if preempt[0] == 0 else preempt[1]) + name
     if lockset: defs['LOCKSET'] = 1; defs['IR2C_ACCESS_HOOK'] = 1; name = 'lockset.' + name
     if prefill: defs['PREFILL'] = prefill; defs['PRESIZE'] = presize; name = 'fill%dx%d.' % (prefill, presize) + name
     K = len(ops)
-    nscen = len(sizes) ** (K - 1 - (sel1 is not None)) * ((K + 1) if faults else 1)
+    npre = 1 if preempt is None else 8 * (1 if preempt[0] in (1, 2) else len(sizes))
+    nscen = npre * len(sizes) ** (K - 1 - (sel1 is not None)) * ((K + 1) if faults else 1)
     q = Q(name, 'c01_slab_p%d' % pol, 'c01_slab.c', 'harness', defs=defs, unwind=max(70, nscen + 2), inline_witness=True, witness='any', timeout=timeout, mem_gb=mem, optional=optional,
-             unwind_fn=[(r'^reset_all$', 70), (r'^harness$', len(sizes) + K + 3), (r'^(check_block|check_content|fill|is_poisoned)$', 300)], solver='minisat2',
+             recursion=([(r'.', 2)] if preempt is not None else []), unwind_fn=[(r'^reset_all$', 70), (r'^harness$', len(sizes) + K + 3 + (10 if preempt is not None else 0)), (r'^(check_block|check_content|fill|is_poisoned)$', 300)], solver='minisat2',
              bounds={'operations': K, 'operation kinds': [OPN[o] + ('' if o == 0 else ' of block %d' % h) for o, h in zip(ops, hs)], 'first size': sizes[sel0], 'second size': 'fixed: %d' % sizes[sel1] if sel1 is not None else 'every table entry', 'later sizes': 'every entry of %s' % sizes,
                      'scenarios in this query': nscen, 'map failure': 'at every map call position 0..%d' % K if faults else 'none', 'policy': ('page 64, ' if pol != 4 else '') + 'slab = superblock 512, 4 classes; ' + POL[pol],
-                     'mode': 'concrete symbolic execution of the real code over flat word-granular memory (scenario parameters enumerated, no symbolic inputs)'},
+                     'preemption': 'none' if preempt is None else 'the last operation is preempted at each of its first 8 lock/unlock events by a whole %s of another thread' % OPN[preempt[0]], 'mode': 'concrete symbolic execution of the real code over flat word-granular memory (scenario parameters enumerated, no symbolic inputs)'},
              what='%s: first size %d, every later size from the table%s, policy %s: all clauses of C01-C04 and lock discipline after every operation' % ('/'.join(OPN[o] for o in ops), sizes[sel0], ', map() failing at every call position' if faults else '', POL[pol]))
     if pol == 3 or lockset: q.replay = 'generated'      # the poison access hook exists only in the flat-memory build
-    q.tag = {'pol': pol, 'ops': list(ops), 'faults': faults, 'K': K, 'size0': sizes[sel0], 'prefill': prefill, 'lockset': lockset}
+    q.tag = {'pol': pol, 'ops': list(ops), 'faults': faults, 'K': K, 'size0': sizes[sel0], 'prefill': prefill, 'lockset': lockset, 'preempt': preempt is not None}
     return q
 SEQ2 = [([0, 0], [0, 0]), ([0, 1], [0, 0]), ([0, 2], [0, 0]), ([0, 3], [0, 0]), ([3, 3], [0, 0]), ([3, 1], [0, 0])]
 SEQ3 = [([0, 0, 0], [0, 0, 0]), ([0, 0, 1], [0, 0, 0]), ([0, 1, 0], [0, 0, 0]), ([0, 3, 0], [0, 0, 0]), ([0, 3, 3], [0, 0, 0]), ([0, 0, 3], [0, 0, 1]), ([0, 1, 3], [0, 0, 0]), ([0, 0, 2], [0, 0, 1])]
@@ -68,6 +72,15 @@ def all_queries(tier):
     for (ops, hs) in SEQ2:
         for s0 in ((1, 3, 7, 8, 10) if quick else range(12)): qs.append(scen(1, ops, hs, s0, SIZES12, lockset=True))
     for (pf, psz, ops, hs, s0) in PRE: qs.append(scen(1, ops, hs, s0, SIZES12, prefill=pf, presize=psz, lockset=True))
+    # two calls, one preempted by the other at lock-operation granularity (C05 first sentence, one-preemption slice): sizes from the 6-entry table
+    PRE2 = [([0, 0], [0, 0], (0, 0)), ([0, 1], [0, 0], (0, 0)), ([0, 0], [0, 0], (1, 0)), ([0, 3], [0, 0], (0, 0)), ([0, 0], [0, 0], (3, 0))]
+    for (ops, hs, pre) in PRE2:
+        for s0 in ((3,) if quick else range(6)):
+            for s1 in ((1, 3, 4) if quick else range(6)): qs.append(scen(1, ops, hs, s0, SIZES6, sel1=s1, preempt=pre, timeout=2400, mem=8))
+    # the class is exactly full (6 blocks of 64): free one while another thread allocates / both allocate (both find the class without a partial slab)
+    for s1 in (1, 3, 4):
+        qs.append(scen(1, [1, 0], [2, 0], 3, SIZES6, sel1=s1, prefill=6, presize=64, preempt=(0, 0), timeout=2400, mem=8))
+        qs.append(scen(1, [0, 0], [0, 0], 3, SIZES6, sel1=s1, prefill=6, presize=64, preempt=(1, 3), timeout=2400, mem=8))
     # poisoning policy, 8-byte class (requests shorter than the allocator's link word): only alloc/free pairs, the poison log grows with every carved slot
     for s0 in (0, 1): qs.append(scen(3, [0, 1], [0, 0], s0, [0, 8, 24]))
     for s0 in (0, 1): qs.append(scen(3, [0, 3], [0, 0], s0, [0, 8, 24]))
@@ -79,7 +92,7 @@ def all_queries(tier):
 def select(tier, pred):
     return [q for q in all_queries(tier) if pred(q.tag)]
 # C01: validity/size/alignment/disjointness on every non-fault scenario of the plain policies (aligned and unaligned map)
-def queries(tier): return select(tier, lambda t: t['pol'] in (1, 2, 4) and not t['faults'] and not t['lockset'])
+def queries(tier): return select(tier, lambda t: t['pol'] in (1, 2, 4) and not t['faults'] and not t['lockset'] and not t['preempt'])
 def validation_queries(tier):
     v = []
     for p in (1, 2, 4):
